@@ -34,6 +34,11 @@ def effective(opts_kind, chosen):
         return list(chosen)
     if opts_kind == "exclude":
         return [s for s in gen.DEFAULT_STYLES if s not in chosen]
+    if opts_kind == "exclude+include":
+        # chosen = (excluded, included): first the defaults without the excluded styles, then the included ones are added
+        ex, inc = chosen
+        base = [s for s in gen.DEFAULT_STYLES if s not in ex]
+        return base + [s for s in inc if s not in base]
     return list(gen.DEFAULT_STYLES) + [s for s in chosen if s not in gen.DEFAULT_STYLES]
 
 
@@ -133,8 +138,12 @@ def run(R):
         families.append(("only", r.sample(gen.STYLES14, k)))
         families.append(("exclude", r.sample(gen.DEFAULT_STYLES, r.randint(1, 5))))
         families.append(("include", r.sample(["Dot", "LowerFlat", "UpperFlat"], r.randint(1, 3))))
+        # both options at once, with a style that is excluded and re-included
+        both_ex = r.sample(gen.DEFAULT_STYLES, r.randint(2, 5))
+        both_inc = [r.choice(both_ex)] + r.sample(["Dot", "LowerFlat", "UpperFlat"], r.randint(0, 2))
+        families.append(("exclude+include", (both_ex, both_inc)))
         if quick:
-            families = [families[0], families[1 + ti % 3]]
+            families = [families[0], families[1 + ti % 3], families[4]]
         if ti % 3 == 0:
             families.append(("exclude", list(gen.DEFAULT_STYLES)))      # every style disabled: nothing may change
         # exactly one enabled style, with the term typed in each kind of style (separator, hump, space)
@@ -145,7 +154,9 @@ def run(R):
         for kind, chosen, search in runs:
             eff = effective(kind, chosen)
             opts = []
-            if kind != "default":
+            if kind == "exclude+include":
+                opts = ["--exclude-styles", ",".join(gen.CLI_STYLE[s] for s in chosen[0]), "--include-styles", ",".join(gen.CLI_STYLE[s] for s in chosen[1])]
+            elif kind != "default":
                 opts = ["--" + kind + "-styles", ",".join(gen.CLI_STYLE[s] for s in chosen)]
             lines, meta = [], []
             for S in gen.STYLES14:
@@ -167,7 +178,17 @@ def run(R):
                     meta.append((S, "SHADOW", pre))
             tree = [{"p": "f.txt", "k": "f", "c": ("\n".join(lines) + "\n").encode(), "m": 0o644}]
             with cli.Sandbox(tree) as sb:
-                rc, o, e = sb.run(["--no-auto-init", "-y", "rename", search, replace, "--no-rename-paths"] + opts)
+                # the two command paths build their style lists separately (operations/rename.rs, operations/plan.rs): alternate
+                via_plan = (stats["runs"] % 2 == 1)
+                if via_plan:
+                    rc, o, e = sb.run(["--no-auto-init", "plan", search, replace, "--no-rename-paths", "--quiet"] + opts)
+                    if rc == 0:
+                        rc, o, e = sb.run(["--no-auto-init", "-y", "apply"])
+                        if rc != 0 and b"No plan" in e + o:
+                            rc = 0      # nothing matched: no plan was written
+                    stats["via_plan_apply"] = stats.get("via_plan_apply", 0) + 1
+                else:
+                    rc, o, e = sb.run(["--no-auto-init", "-y", "rename", search, replace, "--no-rename-paths"] + opts)
                 got = (sb.root / "f.txt").read_bytes().decode("utf-8", "replace").split("\n")
                 stats["runs"] += 1
                 stats["by_family"][kind] = stats["by_family"].get(kind, 0) + 1
